@@ -109,9 +109,15 @@ pub fn run(args: &[String]) -> i32 {
             }
         }
     }
+    // small ledgers of every posting shape through book-keeping: only crashes count here
+    let (n2, bad2) = crate::ledger::sweep(thorough, true);
+    done += n2 as usize;
+    for b in bad2.into_iter().take(5) {
+        bad.push(b);
+    }
     for (s, why) in &bad {
         println!("{}", serde_json::json!({"input": s, "contradiction": why}));
     }
-    println!("{}", serde_json::json!({"family": "c06", "evaluated": done, "of": total, "contradictions": bad.len()}));
+    println!("{}", serde_json::json!({"family": "c06", "evaluated": done, "contradictions": bad.len()}));
     std::process::exit(if bad.is_empty() { 0 } else { 1 });
 }
